@@ -68,7 +68,11 @@ func mkValid(rnd *rand.Rand, key string) triple {
 
 func corrupt(rnd *rand.Rand, v triple) triple {
 	t := triple{receipt: v.receipt, hash: append([]byte(nil), v.hash...), sig: append([]byte(nil), v.sig...)}
-	switch rnd.Intn(12) {
+	switch rnd.Intn(13) {
+	case 12:
+		// the other convention for the recovery id (27 / 28): not what the server's verification accepts
+		t.kind = "sig-recovery-id-plus-27"
+		t.sig[64] += 27
 	case 0:
 		t.kind, t.receipt = "text-changed", v.receipt+"x"
 	case 1:
